@@ -125,6 +125,8 @@ def name_pool(tier):
                 out.append(nm)
     if tier == 'quick':
         out = [nm for i, nm in enumerate(out) if i % 3 == 0 or nm.endswith('0')]
+    # names that CONTAIN the word of the section marker (what a model emits for a sector variable a user calls EXOGENOUS_LEVEL): still one name in an equation
+    out += ['exogenous_g', 'HH__EXOGENOUS_LEVEL', 'nonexogenous', 'Exogenous1']
     return out
 
 
